@@ -172,6 +172,15 @@ pub fn decl_src(d: &Decl) -> String {
                     s.push_str(&format!("    {ev}"));
                 }
                 match v.shape {
+                    // explicit discriminants, descending so that they disagree with every index order
+                    Shape::Unit if d.name.starts_with("Disc") => {
+                        let k = variants.iter().position(|x| x.name == v.name).unwrap();
+                        if k % 2 == 0 {
+                            s.push_str(&format!("    {} = {},\n", v.name, 10 * (variants.len() - k)))
+                        } else {
+                            s.push_str(&format!("    {},\n", v.name))
+                        }
+                    }
                     Shape::Unit => s.push_str(&format!("    {},\n", v.name)),
                     Shape::Tuple => s.push_str(&format!("    {}({}),\n", v.name, fields_src(&v.record, false, ""))),
                     Shape::Struct => s.push_str(&format!("    {} {{\n{}    }},\n", v.name, fields_src(&v.record, true, "").replace("\n    ", "\n        ").replacen("    ", "        ", 1))),
